@@ -423,22 +423,22 @@ Proof.
   apply prune_ext. intros o _ k. rewrite acc_targets_inT. simpl. apply orb_false_r.
 Qed.
 
-(* the place the loop meets first is a root coordinate: refused, nothing changed *)
-Theorem root_refused : forall cs r rest d,
-  del_plan d cs = mkpc None r :: rest ->
-  delete_nodes cs d = Failed d (YPE NoDocument).
-Proof. intros cs r rest d H. unfold delete_nodes. rewrite H. reflexivity. Qed.
-
-(* whatever else is matched, a root coordinate never lets the loop finish *)
-Lemma run_del_root_fails : forall ps d, In None (map pc_parent ps) -> exists d' e, run_del ps d = Failed d' e.
+(* a root coordinate anywhere among the gathered ones: refused before anything is deleted *)
+Lemma has_root_coord_true : forall ps, In None (map pc_parent ps) -> has_root_coord ps = true.
 Proof.
-  induction ps as [|p r IH]; intros d Hin; simpl in *; [contradiction|].
-  destruct (del_step p d) eqn:E.
-  - destruct Hin as [Hp|Hin].
-    + unfold del_step in E. rewrite Hp in E. discriminate.
-    + apply IH; auto.
-  - eauto.
+  intros ps H. apply in_map_iff in H. destruct H as [p [Hp Hin]].
+  unfold has_root_coord. apply existsb_exists. exists p. split; auto. rewrite Hp. reflexivity.
 Qed.
+
+Theorem root_refused : forall cs d,
+  In None (map pc_parent (leaf_coords cs)) ->
+  delete_nodes cs d = Failed d (YPE NoDocument).
+Proof. intros cs d H. unfold delete_nodes. rewrite (has_root_coord_true _ H). reflexivity. Qed.
+
+Theorem root_refused_mg : forall mg cs d,
+  In None (map pc_parent (leaf_coords cs)) ->
+  delete_nodes_mg mg cs d = Failed d (YPE NoDocument).
+Proof. intros mg cs d H. unfold delete_nodes_mg. rewrite (has_root_coord_true _ H). reflexivity. Qed.
 
 Lemma nodupb_sound : forall l, nodupb l = true -> NoDup l.
 Proof.
